@@ -33,6 +33,7 @@ class Summary:
     stores: Dict[str, List[Tuple[FuncInfo, ast.AST, str]]] = field(default_factory=dict)
     reads: Dict[str, List[Tuple[FuncInfo, ast.AST]]] = field(default_factory=dict)
     calls: List[FuncInfo] = field(default_factory=list)
+    maybe_exposed: Dict[str, List[Tuple[FuncInfo, ast.AST]]] = field(default_factory=dict)
 
 
 class AttrState:
@@ -80,6 +81,15 @@ class AttrState:
                         ev.append(("call", m, e))
                     else:
                         ev.append(("read", a, f))  # callback stored in an attribute
+                    return
+                # setattr(self, "name", v) binds the attribute; with a computed name every attribute may be bound
+                if isinstance(f, ast.Name) and f.id == "setattr" and len(e.args) == 3 and isinstance(e.args[0], ast.Name) and e.args[0].id == self.recv:
+                    expr(e.args[1])
+                    expr(e.args[2])
+                    if isinstance(e.args[1], ast.Constant) and isinstance(e.args[1].value, str):
+                        ev.append(("assign", e.args[1].value, e))
+                    else:
+                        ev.append(("assign-any", None, e))
                     return
                 # super().m(...)
                 if isinstance(f, ast.Attribute) and isinstance(f.value, ast.Call) and txt(f.value.func) == "super":
@@ -133,6 +143,15 @@ class AttrState:
         def target(t, aug=False):
             a = self._self_attr(t)
             if a is not None:
+                # `self.p = v` where p is a property with a setter runs the setter
+                ps = self.prog.method(self.cls, a + ".setter")
+                if ps is not None:
+                    if aug:
+                        pg = self.prog.method(self.cls, a)
+                        if pg is not None:
+                            ev.append(("call", pg, t))
+                    ev.append(("call", ps, t))
+                    return
                 if aug:
                     ev.append(("read", a, t))
                 ev.append(("assign", a, t))
@@ -219,6 +238,8 @@ class AttrState:
             for e in evs:
                 if e[0] == "assign":
                     s.kills.setdefault(e[1], []).append((fn, cfg.stmt[n]))
+                elif e[0] == "assign-any":
+                    s.kills.setdefault("*", []).append((fn, cfg.stmt[n]))
                 elif e[0] == "store":
                     s.stores.setdefault(e[1], []).append((fn, cfg.stmt[n], e[3]))
                 elif e[0] == "read":
@@ -290,6 +311,9 @@ class AttrState:
                 transfer(n, IN[n], True)
         for k, (a, nd, f2) in exposed_at.items():
             s.exposed.setdefault(a, []).append((f2, nd))
+        if "*" in s.kills:
+            # attributes bound by computed name (setattr(self, name, v)): which reads are exposed is not known
+            s.maybe_exposed, s.exposed = s.exposed, {}
         s.must = set(IN[EXIT]) if IN[EXIT] is not TOP else set()
         self._last_in = IN
         return s
